@@ -2,11 +2,12 @@
 From PV Require Import Base.Prelude Model.Tables.
 Open Scope N_scope.
 
-(* C06, key c06-duplicate-dhcp-path-offline-offer: Notify is called with a frame that has no host and is
+(* C06, former finding c06-duplicate-dhcp-path-offline-offer (REPAIRED in /repo; the class is kept so that
+   a regression is reported under its own name): Notify is called with a frame that has no host and is
    classified DHCPv4 (session.go:390-405: the host is looked up through the MAC's IP4Offer and the frame is
    marked as an online transition), the offered address is IPv4 and its host is offline with a notification
-   pending.  notify() then puts the host itself on its "previous IP is offline" list, makeOffline sends its
-   notification, and notify() sends the same notification again. *)
+   pending.  Before the repair notify() put the host itself on its "previous IP is offline" list, makeOffline sent
+   its notification, and notify() sent the same notification again. *)
 Definition known_C06_dup (s : state) : bool :=
   match lastf s with
   | Some f =>
